@@ -1,0 +1,15 @@
+//go:build verif
+
+package kafka
+
+// VerifHook, when set (before any other use of the package), receives one
+// event per instrumented linearization point. It exists only in builds made
+// with the "verif" tag and is used by the model-based verification harness to
+// record traces that are validated against the TLA+ specifications.
+var VerifHook func(ev string, args ...interface{})
+
+func verifTrace(ev string, args ...interface{}) {
+	if h := VerifHook; h != nil {
+		h(ev, args...)
+	}
+}
